@@ -117,8 +117,8 @@ def find_def(rel, qualname):
         while stack:
             n = stack.pop(0)
             if isinstance(n, (ast.FunctionDef, ast.AsyncFunctionDef, ast.ClassDef)) and n.name == part:
-                found = n
-                break
+                found = n           # python semantics: the LAST definition of a name wins (e.g. after @overload stubs)
+                continue
             if isinstance(n, (ast.If, ast.Try, ast.With)):
                 stack = list(getattr(n, "body", [])) + list(getattr(n, "orelse", [])) + \
                     list(getattr(n, "finalbody", [])) + stack
